@@ -32,6 +32,11 @@ class EnumManager {
     // enum定義が存在するかチェック
     bool enum_exists(const std::string &enum_name) const;
 
+    // Rust風enum（関連値を持つバリアントがあるenum）かどうか。
+    // Such an enum's unit variants (E::A, Option<T>::None) are enum values
+    // too, unlike the members of a plain C-style enum, which are integers.
+    bool has_associated_values(const std::string &enum_name) const;
+
   private:
     // enum名 -> EnumDefinition のマッピング
     std::unordered_map<std::string, EnumDefinition> enum_definitions_;
